@@ -588,8 +588,8 @@ func (e *Exec) iteVal(t types.Type, c string, a, b Val) Val {
 func (e *Exec) eqVal(t types.Type, a, b Val) string {
 	at, _ := e.leaves(t, a)
 	bt, _ := e.leaves(t, b)
-	if _, ok := t.Underlying().(*types.Slice); ok {
-		// slices are comparable to nil only
+	if _, ok := t.Underlying().(*types.Slice); ok && (at[0] == "null" || bt[0] == "null") {
+		// Go: slices are comparable to nil only; in specs, == between two slices is header equality
 		return fmt.Sprintf("(= %s %s)", at[0], bt[0])
 	}
 	var cs []string
